@@ -2087,6 +2087,24 @@ class Ev3(AutoEvaluator):
                 got.update({k.arg: self.ev(k.value) for k in node.keywords})
                 if len(got) == len(fields):
                     return PyTuple(got[f] for f in fields)
+        if isinstance(node.func, ast.Name) and node.func.id == "slice" and 1 <= len(node.args) <= 3 and not node.keywords and "slice" not in self.env \
+                and "slice" not in self.buffers and not any(isinstance(x, ast.Starred) for x in node.args):
+            # the builtin slice object is the value `lo:hi:step` denotes inside a subscript: X[slice(a, b)] is X[a:b], slice(b) is `:b`
+            parts = []
+            for x in node.args:
+                v = self.ev(x)
+                if is_unknown(v):
+                    return v
+                if isinstance(v, (tuple, DictValue)):
+                    parts = None
+                    break
+                parts.append(need(v))
+            if parts is not None:
+                if len(parts) == 1:
+                    parts = [F.sym("None"), parts[0]]
+                while len(parts) < 3:
+                    parts.append(F.sym("None"))
+                return F.fn("slice", *parts)
         if isinstance(node.func, ast.Name) and node.func.id == "map" and len(node.args) >= 2 and not node.keywords and "map" not in self.env \
                 and "map" not in self.buffers and not any(isinstance(x, ast.Starred) for x in node.args):
             r = self._lazy_seq(node)
